@@ -359,7 +359,8 @@ def run(chk: common.Check):
               "modelled shape (outcome, centre atoms, interaction atoms); read_molecule_file on names/contents. Search: per residue type of 1HPX a "
               "7-residue window with every single atom, pairs, and side-chain subsets removed (sampled within budget), random removal of atoms / "
               "residues / backbone atoms / ligand atoms on whole structures, a share with --protonate-all; sites with surviving defining atom must "
-              "remain. distinct = removal patterns"),
+              "remain. distinct = removal patterns"
+              " Added in round 5: every backbone / terminal atom of the chain ends removed in the whole structure."),
         assumptions=["C-terminus totality needs symmetric bonds (C11_bonds_symmetric); the one-way case is part of the correspondence",
                      "the rest of the pipeline (protonation geometry, determinant loops, coupling) is covered by the removal search only"],
         trusted=["model/Setup.v hand model (validated each run)", "stub protonator / ring finder of the correspondence harness"])
